@@ -3,6 +3,8 @@
 usage: ir_driver.py --out FILE
 """
 import argparse
+import numbers
+from fractions import Fraction
 import json
 import math
 import os
@@ -27,11 +29,13 @@ SPECIAL = [(-1.0, True), (0.0, True), (-0.0, True), (1e-9, True), (0.00001, True
            (5e-324, True), (2.2250738585072014e-308, True), (1e-300, True), (1e-252, True), (1.7976931348623157e308, False),
            (3e282, False), (-1.7976931348623157e308, True), (-5e-324, True)]
 SIM_D = [-5.0, 0.0, 1.0, 4.4, 4.5, 4.6, 9.9, 10.0, 10.1, 17.25, 22.4, 22.5, 22.6, 30.0, 34.9, 35.0, 35.1, 50.0, 79.9, 80.0,
-         80.1, 100.0, 144.9, 145.0, 145.1, 1000.0, 2000.0]
+         80.1, 100.0, 144.9, 145.0, 145.1, 1000.0, 2000.0,
+         # distances need not be floats: "getDistance() returns the d that was set"
+         30, Fraction(105, 4), Fraction(100, 3)]
 
 
 def ucm(x):
-    if not isinstance(x, (int, float)) or isinstance(x, bool) or math.isnan(x) or math.isinf(x):
+    if not isinstance(x, numbers.Real) or isinstance(x, bool) or math.isnan(x) or math.isinf(x):
         return -1
     return int(round(x * 1e6))
 
